@@ -226,10 +226,13 @@ def paths : List (String × List PathStep) := [
   -- appendAnchor/appendGuideline/anchors=/guidelines= with dicts or foreign objects, at glyph and font level
   ("dictAppend", [glyphStep "Glyph.instantiateAnchor", glyphStep "Glyph.insertAnchor?isinstance",
                   glyphStep "Glyph.instantiateGuideline", glyphStep "Glyph.insertGuideline?isinstance",
-                  fontStep "Font.instantiateGuideline", fontStep "Font.insertGuideline?isinstance"]),
+                  fontStep "Font.instantiateGuideline", fontStep "Font.insertGuideline?isinstance",
+                  -- a font guideline dirties `font.info`, which is created (and read) on that first access
+                  fontStep "Font.instantiateInfo"]),
   -- the public factory methods called directly
   ("factory", fontParts ++ [fontStep "Font.instantiateGuideline"] ++ layerParts ++ glyphShell ++
-              [glyphStep "Glyph.instantiateContour", glyphStep "Glyph.instantiateComponent"] ++ glyphMarks),
+              [glyphStep "Glyph.instantiateContour", contourStep "Contour.addPoint",
+               glyphStep "Glyph.instantiateComponent"] ++ glyphMarks),
   -- glyph.getPen() / getPointPen()
   ("penDraw", outline),
   -- Contour.reverse (also through `clockwise =` and correctContourDirection): the points are re-created
@@ -245,8 +248,7 @@ def paths : List (String × List PathStep) := [
               fontStep "Font.instantiateFeatures", fontStep "Font.instantiateLib", fontStep "Font.instantiateGuideline"]
              ++ layerParts ++ glyphShell ++ outline ++ glyphMarks),
   -- setDataFromSerialization / deserialize at font, layer, glyph and contour level
-  ("deserialize", [fontStep "Font.instantiateLayerSet", fontStep "Font.instantiateImageSet", fontStep "Font.instantiateDataSet",
-                   fontStep "Font.instantiateGuideline"] ++ layerParts ++ glyphShell ++ outline ++ glyphMarks)
+  ("deserialize", fontParts ++ [fontStep "Font.instantiateGuideline"] ++ layerParts ++ glyphShell ++ outline ++ glyphMarks)
 ]
 
 def pathSteps (name : String) : List PathStep := (AL.get? paths name).getD []
